@@ -20,6 +20,64 @@ def specs_for(shape):
     return [()] + [tuple(p) for p in itertools.combinations(names, 2)] + [('**',), ('*', '**')]
 
 
+class Point(object):
+    """a class that exists only in this session's __main__ (this module is run with -m): dill pickles it by reference or by
+    value depending on the serializer options a picklemap was configured with"""
+    def __init__(self, x, y):
+        self.x, self.y = x, y
+
+    def __repr__(self):
+        return 'Point(%r, %r)' % (self.x, self.y)
+
+    def __eq__(self, other):
+        return type(other) is type(self) and (self.x, self.y) == (other.x, other.y)
+
+    def __hash__(self):
+        return hash((self.x, self.y))
+
+
+def _norm(p, start=0, *more, **opts):
+    return None
+
+
+def main_class_groups(detail=None):
+    """keys of calls whose arguments are instances of a __main__ class, under the serialising keymaps and under picklemaps
+    with serializer options (protocol, byref, recurse): 'main/<j>' -> [digest, ncalls] | rows"""
+    kmod, I, _ = K._mods()
+    kms = [('picklemap dill', kmod.picklemap(serializer='dill')), ('picklemap dill protocol=2', kmod.picklemap(serializer='dill', protocol=2)),
+           ('picklemap dill non-flat typed', kmod.picklemap(serializer='dill', flat=False, typed=True)),
+           ('picklemap dill recurse', kmod.picklemap(serializer='dill', recurse=True)),
+           ('picklemap pickle protocol=2', kmod.picklemap(serializer='pickle', protocol=2)),
+           ('hashmap md5 dill', kmod.hashmap(algorithm='md5', serializer='dill')), ('stringmap', kmod.stringmap()),
+           ('stringmap of picklemap dill', kmod.stringmap() + kmod.picklemap(serializer='dill')),
+           ('hashmap md5 of picklemap dill protocol=2', kmod.hashmap(algorithm='md5') + kmod.picklemap(serializer='dill', protocol=2))]
+    if os.environ.get('KV_SESSION_VARIANT', '0') == '1':
+        for _, km in kms:
+            try:
+                km((i for i in range(3)), lock=__import__('threading').Lock())
+            except Exception:
+                pass
+    calls = [((Point(3, 4),), {}), ((Point(3, 4), 1), {}), ((), {'p': Point(3, 4)}), ((Point(1, 2),), {'start': Point(0, 0)}),
+             ((Point(1, 2), 0, Point(5, 6)), {'w': Point(7, 8)}), (((1, 2, 3),), {}), ((Point,), {}), ((1,), {'start': Point})]      # no functions: their repr holds an address
+    out = {}
+    for j, (name, km) in enumerate(kms):
+        if detail is not None and detail != j:
+            continue
+        h = hashlib.sha1()
+        rows = []
+        for (a, k) in calls:
+            try:
+                g = I._keygen(_norm, (), *a, **k)
+                r = repr(km(*g[0], **g[1]))
+            except Exception as e:      # noqa
+                r = 'raises ' + e.__class__.__name__
+            h.update(r.encode('utf-8', 'backslashreplace'))
+            h.update(b'\0')
+            rows.append(['f(%s)' % ', '.join([repr(x) for x in a] + ['%s=%r' % kv for kv in k.items()]), r[:300]])
+        out['main/%d/%s' % (j, name)] = rows if detail is not None else [h.hexdigest()[:16], len(calls)]
+    return out
+
+
 def groups(mode, lo, hi, detail=None):
     (npos, nkwo), maxpos, maxkw = KC._scope(mode)
     _, I, _ = K._mods()
@@ -70,7 +128,13 @@ def groups(mode, lo, hi, detail=None):
 if __name__ == '__main__':
     mode, lo, hi = sys.argv[1], int(sys.argv[2]), int(sys.argv[3])
     detail = None
+    if '--main-detail' in sys.argv:
+        json.dump(main_class_groups(int(sys.argv[sys.argv.index('--main-detail') + 1])), sys.stdout)
+        sys.exit(0)
     if '--detail' in sys.argv:
         i = sys.argv.index('--detail')
         detail = tuple(int(x) for x in sys.argv[i + 1:i + 5])
-    json.dump(groups(mode, lo, hi, detail), sys.stdout)
+    res = groups(mode, lo, hi, detail)
+    if lo == 0 and detail is None:
+        res.update(main_class_groups())
+    json.dump(res, sys.stdout)
